@@ -322,8 +322,53 @@ def run(ctx, repo):
 
     # ---- R5 dispatch
     calc = mod.func('calc_uka_age_group')
-    got = {}
-    cur = [s for s in calc.body if isinstance(s, ast.If)]
+    # decided by folding the dispatcher over the complete domain category x vets x underage (all given explicitly) with the two
+    # rule functions replaced by recorders of what reaches them; the reading of the if-chain below is the fallback
+    got = None
+    try:
+        from .. import fold as _fold
+        RULEFN = {'rule107_agegroups_trackandfield': 'TF', 'rule507_agegroups_crosscountry': 'XC'}
+
+        class _Rec(_fold.Folder):
+            def call(self, fc, args, kw):
+                if fc.node.name in RULEFN:
+                    e_ = self.bind_call(fc, args, kw)
+                    ps = [a.arg for a in fc.node.args.args]
+                    return ('reached', RULEFN[fc.node.name], e_.get(ps[0]), e_.get(ps[1]), e_.get('vets'), e_.get('underage'))
+                return _fold.Folder.call(self, fc, args, kw)
+        menv = dict(repo.folded(UKA)[0])
+        fgot, fbad = {}, []
+        pn = [a.arg for a in calc.args.args]
+        for cat in ('TF', 'ROAD', 'XC', 'ESAA', 'NO-SUCH-CATEGORY'):
+            for v_ in (True, False):
+                for u_ in (True, False):
+                    F_ = _Rec()
+                    fc_ = _fold.FuncConst(calc, menv)
+                    try:
+                        r_ = F_.call(fc_, ['<birth>', '<match>', cat], {'vets': v_, 'underage': u_})
+                    except _fold._Raise as ex_:
+                        r_ = ('raise', ex_.name)
+                    key_ = cat if cat != 'NO-SUCH-CATEGORY' else '*'
+                    if isinstance(r_, tuple) and r_[0] == 'reached':
+                        fgot[key_] = r_[1]
+                        if r_[2:] != ('<birth>', '<match>', v_, u_):
+                            fbad.append((cat, v_, u_, r_[2:]))
+                    elif isinstance(r_, tuple) and r_[0] == 'raise':
+                        fgot[key_] = r_[1]
+                    else:
+                        fgot[key_] = 'returns'
+        got = fgot
+        for cat, v_, u_, seen in fbad[:1]:
+            ctx.finding('R5', '%s::calc_uka_age_group::%s arguments' % (UKA, cat), UKA, calc.lineno,
+                        'calc_uka_age_group(.., %r, vets=%r, underage=%r) hands (birth date, match date, vets, underage) = %r to the rule function: '
+                        'the options given by the caller do not reach the rule unchanged' % (cat, v_, u_, seen), (cat, v_, u_))
+        ctx.count('dispatcher calls folded (category x vets x underage)', 20)
+    except _fold.Unfoldable:
+        got = None
+    folded_dispatch = got is not None
+    if got is None:
+        got = {}
+    cur = [s for s in calc.body if isinstance(s, ast.If)] if not folded_dispatch else []
     node = cur[0] if cur else None
     catn = calc.args.args[2].arg if len(calc.args.args) > 2 else 'category'
     while node is not None:
